@@ -336,3 +336,7 @@ func RunReplay(harnesses map[string]func()) (failed []string, err error) {
 	fmt.Println("VERIF-DONE")
 	return Failed, nil
 }
+
+// Itoa is the decimal text of x. Under the engine the text of a symbolic x is
+// opaque: only strconv.ParseInt / Atoi can read it back (as x).
+func Itoa(x int64) string { return strconv.FormatInt(x, 10) }
